@@ -384,3 +384,35 @@ Theorem C01_model_frame_then_stream : forall cfg d p dictID bs rest e' x' c item
   exists t, R cfg d (enc_frame p dictID bs ++ rest) = Ok (blocks_content bs ++ c, FZstd t (lenN (blocks_content bs)) :: items).
 Proof. exact R_model_frame_then_stream. Qed.
 Print Assumptions C01_model_frame_then_stream.
+
+(* ---- tANS completeness, in general: for EVERY decoding table built from a normalised distribution (every count >= -1,
+        counts summing to 2^log, table log 5..9 = every FSE table of the format), every symbol of non-zero probability and
+        every state: some cell of that symbol has an interval containing the state, i.e. the FSE encoder is total.
+        (The positions visited by the symbol spreading depend only on (log, number of low-probability symbols); that they are
+        pairwise distinct, stay below the low-probability area and return to 0 is a finite sweep over all 992 (log, high)
+        pairs; occupancy of the table, the per-symbol counters of the cells and the tiling of [0, 2^log) by the intervals
+        of the counters c .. 2c-1 are proved symbolically.) ---- *)
+From ZV.Codec Require Import FseTotal.
+Theorem C01_fse_encoder_total : forall log counts t s,
+  build_dtable log counts = Ok t -> In log [5; 6; 7; 8; 9] -> Forall (fun c => (-1 <= c)%Z) counts ->
+  forall c, nth_error counts (N.to_nat s) = Some c -> c <> 0%Z ->
+  (exists st, enc_init t s = Some st) /\ forall x, x < 2 ^ log -> exists r, enc_step t x s = Some r.
+Proof. exact build_dtable_total. Qed.
+Print Assumptions C01_fse_encoder_total.
+
+(* ... hence the sequences bitstream encoder never fails on three such tables when every code it has to emit has a non-zero
+   count: the hypothesis [enc_seq_stream ... = Some stream] of C01_fully_compressed_block_round_trip is implied by checkable
+   conditions on the chosen distributions *)
+Theorem C01_sequence_encoder_total : forall lllog llc tll oflog ofc tof mllog mlc tml,
+  build_dtable lllog llc = Ok tll -> build_dtable oflog ofc = Ok tof -> build_dtable mllog mlc = Ok tml ->
+  In lllog [5; 6; 7; 8; 9] -> In oflog [5; 6; 7; 8; 9] -> In mllog [5; 6; 7; 8; 9] ->
+  Forall (fun c => (-1 <= c)%Z) llc -> Forall (fun c => (-1 <= c)%Z) ofc -> Forall (fun c => (-1 <= c)%Z) mlc ->
+  forall qs, qs <> [] -> Forall (codes_present llc ofc mlc) qs ->
+  exists st bits, enc_seqs tll tof tml qs = Some (st, bits).
+Proof. exact enc_seqs_total. Qed.
+Print Assumptions C01_sequence_encoder_total.
+
+(* the hypotheses are met by the predefined literal-length distribution: symbol 35 (count -1) from every state *)
+Example C01_fse_total_example :
+  exists t, build_dtable 6 Gen_Tables.LL_defaultNorm = Ok t /\ (exists r, enc_step t 17 35 = Some r) /\ nth_error Gen_Tables.LL_defaultNorm 35 = Some (-1)%Z.
+Proof. vm_compute. eexists. repeat split; eexists; reflexivity. Qed.
